@@ -10,6 +10,10 @@ import random
 WORDS = ["alpha", "beta", "gamma", "the door", "you see", "a lamp", "cold", "warm", "old map",
          "river", "stone", "north", "quiet", "wind", "gold", "key", "rope", "Look", "Wait", "Go on"]
 
+# comment texts that look like syntax: none of it may leak into the story
+COMMENTS = ["note", "TODO later", "x y z", "why: because", "first part (depth=1)", "(optional)", "it's odd", 'the "real" one',
+            "-> Nowhere", "^hidden", "{a}", "see [this] -> That", "a // b", "@endif", "<>", "~ a = 1", "50% (half)"]
+
 INT_VARS = ["a", "b", "c"]
 BOOL_VARS = ["f", "g"]
 STR_VARS = ["s", "t"]
@@ -49,6 +53,12 @@ class Gen:
         self.stats[key] = self.stats.get(key, 0) + 1
 
     def word(self):
+        return self.r.choice(WORDS)
+
+    def prose(self):
+        """a word for running text / choice text: sometimes with an apostrophe or a quote in it"""
+        if self.r.random() < 0.12:
+            return self.r.choice(["don't", "the keeper's", 'say "ah', "it's 5 o'clock"])
         return self.r.choice(WORDS)
 
     # ------------------------------------------------------------------ expressions
@@ -193,7 +203,7 @@ class Gen:
         if k == 9:
             return f"d['{r.choice(['k', 'm', 'q'])}'] = {self.int_expr(1, ints)}"
         if k == 10:
-            return f"{r.choice(INT_VARS)} *= 2"
+            return f"{r.choice(INT_VARS)} *= 2" if r.random() < 0.6 else f"{r.choice(INT_VARS)} //= {r.choice([2, 3, -2])}"
         if k == 11:
             return f"ws.append({self.str_expr(1)})"
         return f"xs += [{r.randint(0, 5)}]"
@@ -204,8 +214,10 @@ class Gen:
         ps = []
         for _ in range(r.randint(1, 3)):
             k = r.random()
-            if k < 0.5:
-                ps.append(("t", self.word() + r.choice([" ", ", ", ". ", ""])))
+            if k < 0.04:
+                ps.append(("t", "see a\\//b "))        # an escaped // is text, not a comment
+            elif k < 0.5:
+                ps.append(("t", self.prose() + r.choice([" ", ", ", ". ", ""])))
             elif k < 0.85 or not allow_ic:
                 ps.append(self.display(ints))
             elif self.p("inline_cond"):
@@ -257,7 +269,7 @@ class Gen:
     def choice(self, cur_idx, ints=None, in_block=False, join=False):
         r = self.r
         tgt = "@join" if join else self.target(cur_idx, False)
-        text = [("t", self.word())]
+        text = [("t", self.prose())]
         if r.random() < 0.3:
             text.append(("t", " "))
             text.append(("e", self.int_expr(1, ints)))
@@ -521,35 +533,52 @@ def print_choice(c):
     return s
 
 
-def print_items(items, indent, style, out, top=False):
-    pad = " " * indent
+def _cmt(style, kind, item=None):
+    """a trailing // comment for this kind of line, as the style asks"""
+    if "trailing" in style:
+        r = style.get("rng")
+        if kind in style["trailing"] and (r is None or r.random() < 0.7):
+            return " // " + (r.choice(COMMENTS) if r else "note")
+        return ""
+    # default style: the comments the generator attached to the AST
+    if item is not None and item.get("comment") and style.get("comments", True):
+        return " // " + item["comment"]
+    return ""
+
+
+def print_items(items, indent, style, out, top=False, in_join=False):
+    unit = style.get("indent", "  ")
+    pad = unit * indent if isinstance(indent, int) else indent
+    r = style.get("rng")
     for it in items:
         k = it["k"]
+        if r is not None and not in_join and r.random() < style.get("comment_lines", 0):
+            out.append(pad + "# " + r.choice(["a comment", "section", "-> not a jump", "+ [not a choice] -> X"]))
         if k == "line":
             s = pad + print_parts(it["parts"])
             for t in it["tags"]:
                 s += " ^" + t
-            if it.get("comment") and style.get("comments", True):
-                s += " // " + it["comment"]
             if it["glue"]:
                 s += "<>"
+                if "trailing" in style:
+                    s += _cmt(style, "line", it)
+            elif s == s.rstrip() or "trailing" not in style:
+                # (a comment after text that itself ends in blanks is ambiguous: which blanks are the text's?)
+                s += _cmt(style, "line", it)
             out.append(s)
         elif k == "blank":
             out.append("")
         elif k == "comment":
             out.append(pad + "# " + it["text"])
         elif k == "stmt":
-            s = pad + "~ " + it["code"]
-            if it.get("comment") and style.get("comments", True):
-                s += " // " + it["comment"]
-            out.append(s)
+            out.append(pad + "~ " + it["code"] + _cmt(style, "stmt", it))
         elif k == "py":
             if style.get("legacy"):
                 out.append(pad + "<<py")
                 out.extend(pad + "  " + l for l in it["lines"])
                 out.append(pad + ">>")
             else:
-                out.append(pad + "@py:")
+                out.append(pad + "@py:" + _cmt(style, "py"))
                 out.extend(it["lines"])
                 out.append(pad + "@endpy")
         elif k == "if":
@@ -558,33 +587,37 @@ def print_items(items, indent, style, out, top=False):
                     head = "<<if " + cond + ">>" if i == 0 else ("<<else>>" if cond is None else "<<elif " + cond + ">>")
                 else:
                     head = "@if " + cond + ":" if i == 0 else ("@else:" if cond is None else "@elif " + cond + ":")
-                out.append(pad + head)
-                print_items(body, indent + style.get("indent", 2), style, out)
-            out.append(pad + ("<<endif>>" if style.get("legacy") else "@endif"))
+                out.append(pad + head + _cmt(style, "ifhead"))
+                print_items(body, indent + 1, style, out)
+            out.append(pad + ("<<endif>>" if style.get("legacy") else "@endif") + _cmt(style, "endif"))
         elif k == "for":
             if style.get("legacy"):
-                out.append(pad + f"<<for {it['var']} in {it['coll']}>>")
+                out.append(pad + f"<<for {it['var']} in {it['coll']}>>" + _cmt(style, "forhead"))
             else:
-                out.append(pad + f"@for {it['var']} in {it['coll']}:")
-            print_items(it["body"], indent + style.get("indent", 2), style, out)
-            out.append(pad + ("<<endfor>>" if style.get("legacy") else "@endfor"))
+                out.append(pad + f"@for {it['var']} in {it['coll']}:" + _cmt(style, "forhead"))
+            print_items(it["body"], indent + 1, style, out)
+            out.append(pad + ("<<endfor>>" if style.get("legacy") else "@endfor") + _cmt(style, "endif"))
         elif k == "render":
-            out.append(pad + "@render " + it["name"] + "(" + it["args"] + ")")
+            out.append(pad + "@render " + it["name"] + "(" + it["args"] + ")" + _cmt(style, "render"))
         elif k == "input":
             s = pad + f'@input name="{it["name"]}"'
             if it.get("label"):
                 s += f' label="{it["label"]}"'
-            out.append(s)
+            out.append(s + _cmt(style, "input"))
         elif k == "hook":
-            out.append(pad + ("@hook" if it["add"] else "@unhook") + " turn_end " + it["target"])
+            out.append(pad + ("@hook" if it["add"] else "@unhook") + " turn_end " + it["target"] + _cmt(style, "hook"))
         elif k == "choice":
-            out.append(pad + print_choice(it))
+            out.append(pad + print_choice(it) + _cmt(style, "choice"))
             if it["target"] == "@join" and it.get("block"):
-                print_items(it["block"], indent + 4, dict(style, comments=False), out)
+                sub = dict(style)
+                if not style.get("join_block_comments"):
+                    sub.pop("trailing", None)
+                    sub["comments"] = False
+                print_items(it["block"], pad + "    ", sub, out, in_join=not style.get("join_block_comments"))
         elif k == "jump":
-            out.append(pad + "-> " + it["target"] + ("(" + it["args"] + ")" if it["args"] else ""))
+            out.append(pad + "-> " + it["target"] + ("(" + it["args"] + ")" if it["args"] else "") + _cmt(style, "jump"))
         elif k == "join":
-            out.append(pad + "@join")
+            out.append(pad + "@join" + _cmt(style, "join"))
         else:
             raise ValueError(k)
 
@@ -598,7 +631,7 @@ def print_story(story, style=None):
             head += "(" + ", ".join(n if d is None else f"{n}={d}" for n, d in p["params"]) + ")"
         for t in p["tags"]:
             head += " ^" + t
-        out.append(head)
+        out.append(head + _cmt(style, "header"))
         print_items(p["items"], 0, style, out, top=True)
         if not p.get("compact"):
             out.append("")
